@@ -55,11 +55,30 @@ add(Contract(V + 'visitPredicateexpression', 'fn', [('self', 'CSelf'), ('ctx', '
 
 # ---- clauses (C11, C12): the head of every accepted clause is an ordinary goal whose name is a Python identifier (it becomes
 #      part of the name of a function definition); a fact has the body `true`
-add(Contract(V + 'visitClause', 'fn', [('self', 'CSelf'), ('ctx', 'CL')], ret='ClauseAst', modifies=['avc'],
+add(Contract(V + 'visitClause', 'fn', [('self', 'CSelf'), ('ctx', 'CL')], ret='CA', modifies=['avc'],
              requires=['(clwf {ctx})', '(>= {avc} 0)'],
              raises={'CompilerError': None},
-             ensures=['(= {result.head} (spbody (clhd {ctx}) {avc0}))',
-                      '((_ is BPred) {result.head})',
-                      '(str.in_re (tafname (predta (pid {result.head}))) IDENT)',
-                      '(= {result.body} (clbodyof {ctx} {avc0}))',
+             ensures=['(= {result} (caof {ctx} {avc0}))',
+                      '((_ is BPred) (cahead {result}))',
+                      '(str.in_re (tafname (predta (pid (cahead {result})))) IDENT)',
                       '(= {avc} (+ {avc0} (clcnt {ctx})))']))
+
+# ---- programs: clauses are grouped by (name, arity) of their head, keys in first-occurrence order, clauses in source order ----
+add(Contract(V + 'visitDirective', 'fn', [('self', 'CSelf'), ('ctx', 'SP')], ret='NonClause', modifies=['avc'],
+             requires=['(spwf {ctx})', '(>= {avc} 0)'], raises={'CompilerError': None},
+             ensures=['(= {avc} (+ {avc0} (spcnt {ctx})))'],
+             notes='assumed: the generated prologVisitor.visitDirective = visitChildren visits the one simplepredicate child (A-EXT-ANTLR)'))
+add(Contract(V + 'visitClauseordirective', 'fn', [('self', 'CSelf'), ('ctx', 'CD')], ret='CAOpt', modifies=['avc'],
+             requires=['(cdwf {ctx})', '(>= {avc} 0)'], raises={'CompilerError': None},
+             ensures=['(= {result.isclause} ((_ is CDClause) {ctx}))',
+                      '(=> ((_ is CDClause) {ctx}) (= {result} (caof (cdcl {ctx}) {avc0})))',
+                      # an accepted clause has an ordinary goal with an identifier name as its head
+                      '(=> ((_ is CDClause) {ctx}) (and ((_ is BPred) (cahead {result})) (str.in_re (tafname (predta (pid (cahead {result})))) IDENT)))',
+                      '(= {avc} (+ {avc0} (cdcnt {ctx})))']))
+_PGWF = '(forall ((j Int)) (! (=> (and (<= 0 j) (< j (seq.len {ctx}))) (cdwf (seq.nth {ctx} j))) :pattern ((seq.nth {ctx} j))))'
+add(Contract(V + 'visitProgram', 'fn', [('self', 'CSelf'), ('ctx', 'PG')], ret='PDict', modifies=['avc'],
+             requires=[_PGWF, '(>= {avc} 0)'], raises={'CompilerError': None},
+             ensures=['(= {result.keys} (pgkeys {ctx} (seq.len {ctx}) {avc0}))', '(= {result.vals} (pgvals {ctx} (seq.len {ctx}) {avc0}))',
+                      '(= {avc} (pgavc {ctx} (seq.len {ctx}) {avc0}))'],
+             loops={0: LoopSpec(['(= {clauses.keys} (pgkeys {ctx} {k} {avc0}))', '(= {clauses.vals} (pgvals {ctx} {k} {avc0}))',
+                                 '(= {avc} (pgavc {ctx} {k} {avc0}))', '(>= {avc} 0)'])}))
